@@ -1,2 +1,181 @@
+//! C03 / C14: histories of 2..4 update cycles on one datastore; versions of timestamp, snapshot,
+//! targets and snapshot-listed targets vary independently per cycle (genuinely signed older files
+//! are replayed); newer roots change keys / thresholds of the online and targets roles between
+//! cycles (disjoint, overlapping, threshold change, rotate-and-rotate-back); the shipped root is the
+//! oldest, an intermediate or the newest one; failed cycles in between.
 use crate::*;
-pub async fn generate(_ctx: &mut Ctx<'_>, _seed: u64, _thorough: bool) {}
+
+#[derive(Clone, Debug, PartialEq)]
+struct RoleSet {
+    ts: (Vec<usize>, u64),
+    snap: (Vec<usize>, u64),
+    tgt: (Vec<usize>, u64),
+}
+
+const TS_POOL: [usize; 3] = [8, 0, 1];
+const SNAP_POOL: [usize; 3] = [9, 2, 3];
+const TGT_POOL: [usize; 3] = [10, 4, 5];
+
+fn mutate(r: &mut Rng, prev: &RoleSet, history: &[RoleSet]) -> (RoleSet, &'static str) {
+    let mut n = prev.clone();
+    let fresh = |r: &mut Rng, pool: &[usize], avoid: &[usize]| -> usize {
+        for _ in 0..20 {
+            let k = *r.pick(pool);
+            if !avoid.contains(&k) { return k; }
+        }
+        pool[0]
+    };
+    let kind = match r.below(10) {
+        0 => { n.ts = (vec![fresh(r, &TS_POOL, &prev.ts.0)], 1); "ts-disjoint" }
+        1 => { let k = fresh(r, &TS_POOL, &prev.ts.0); n.ts = (vec![prev.ts.0[0], k], 1); "ts-overlap" }
+        2 => { n.snap = (vec![fresh(r, &SNAP_POOL, &prev.snap.0)], 1); "snap-disjoint" }
+        3 => { let k = fresh(r, &SNAP_POOL, &prev.snap.0); n.snap = (vec![k, prev.snap.0[0]], 1); "snap-overlap" }
+        4 => { n.ts = (vec![fresh(r, &TS_POOL, &prev.ts.0)], 1); n.snap = (vec![fresh(r, &SNAP_POOL, &prev.snap.0)], 1); "both" }
+        5 => { n.tgt = (vec![fresh(r, &TGT_POOL, &prev.tgt.0)], 1); "tgt-disjoint" }
+        6 => { let k = fresh(r, &TS_POOL, &prev.ts.0); n.ts = (vec![prev.ts.0[0], k], 2); "ts-threshold-up" }
+        7 => { if history.len() >= 2 { n = history[history.len() - 2].clone(); } "rotate-back" }
+        8 => { let mut k = prev.ts.0.clone(); k.reverse(); n.ts = (k, prev.ts.1); "ts-reorder" }
+        _ => "none",
+    };
+    (n, kind)
+}
+
+fn root_of(rs: &RoleSet, version: u64, cs: bool, msg: u64) -> ARoot {
+    simple_root(version, cs, (vec![RK], 1), rs.ts.clone(), rs.snap.clone(), rs.tgt.clone(), msg, &[RK])
+}
+
+fn signers(r: &mut Rng, rk: &(Vec<usize>, u64)) -> Vec<usize> {
+    let mut ks = rk.0.clone();
+    r.shuffle(&mut ks);
+    ks.truncate(rk.1 as usize);
+    ks
+}
+
+#[derive(Clone, Debug)]
+struct Step {
+    epoch: usize,
+    shipped: usize,
+    versions: [u64; 4], // ts, snapshot, targets, snapshot-listed targets (0 = entry dropped)
+    fail: Option<&'static str>,
+}
+
+async fn history(ctx: &mut Ctx<'_>, r: &mut Rng, epochs: &[RoleSet], kinds: &[&str], steps: &[Step], cs: bool, class: &str) {
+    let mut world = World::new(ctx.pool, Names::default());
+    let mut msgs = MsgGen(0);
+    let roots: Vec<ARoot> = epochs.iter().enumerate().map(|(i, e)| root_of(e, i as u64 + 1, cs, msgs.next())).collect();
+    let mut cycles = Vec::new();
+    let mut distinct_versions = false;
+    for (i, s) in steps.iter().enumerate() {
+        if i > 0 && steps[i - 1].versions != s.versions { distinct_versions = true; }
+        let e = &epochs[s.epoch];
+        let mut top = base_repo(&mut msgs, cs, false).top;
+        top.version = s.versions[2];
+        top.entries = vec![(2, 5, 3)];
+        top.sigs = valid_sigs(&signers(r, &e.tgt));
+        top.msg = 10_000 + s.versions[2] * 16 + top.sigs.iter().fold(0u64, |a, x| a * 7 + x.key as u64) % 16; // same document for same version+signers
+        let online = Online { ts_sigs: valid_sigs(&signers(r, &e.ts)), snap_sigs: valid_sigs(&signers(r, &e.snap)), ts_expires: DAY, snap_expires: 3 * DAY };
+        let listed = s.versions[3];
+        let mut asm = assemble_with(&mut world, cs, s.versions[0], s.versions[1], &top, &[], Pin { length: r.chance(1, 2), hash: r.chance(1, 2) }, &online, &mut msgs,
+            &mut |w, _, m| { if w == "targets" { m.version = listed; } });
+        if cs && listed != s.versions[2] && listed != 0 {
+            // the client will ask for <listed>.targets.json: serve the document there
+            if let Some((_, f)) = asm.server.iter().find(|(n, _)| matches!(n, AName::Targets(_))).cloned() {
+                asm.server.push((AName::Targets(Some(listed)), f));
+            }
+        }
+        let mut server = asm.server;
+        for v in 1..=s.epoch {
+            server.push((AName::RootV(v as u64 + 1), AResp::File(AFile::plain(AContent::Root(roots[v].clone())))));
+        }
+        let mut safe = true;
+        let mut now = 0;
+        match s.fail {
+            Some("ts-missing") => set_file(&mut server, AName::Timestamp, AResp::NotFound),
+            Some("ts-garbage") => set_file(&mut server, AName::Timestamp, AResp::File(AFile::plain(AContent::Garbage))),
+            Some("snapshot-openerr") => {
+                let n = server.iter().find(|(n, _)| matches!(n, AName::Snapshot(_))).map(|(n, _)| n.clone()).unwrap();
+                set_file(&mut server, n, AResp::OpenErr)
+            }
+            Some("expired") => { now = 400 * DAY; }
+            Some("unsafe") => { safe = false; }
+            _ => {}
+        }
+        cycles.push(ACycle { limits: ALimits::default(), safe, now: now + 2 * i as i64, server, shipped: Some(roots[s.shipped].clone()), reads: vec![] });
+    }
+    let rotation = kinds.iter().any(|k| *k != "none");
+    let note = json!({"kinds": kinds, "steps": steps.iter().map(|s| json!({"epoch": s.epoch, "shipped": s.shipped, "versions": s.versions, "fail": s.fail})).collect::<Vec<_>>()});
+    ctx.emit(&mut world, class, &cycles, distinct_versions || rotation, note).await;
+}
+
+fn base_set() -> RoleSet {
+    RoleSet { ts: (vec![8], 1), snap: (vec![9], 1), tgt: (vec![10], 1) }
+}
+
+pub async fn generate(ctx: &mut Ctx<'_>, seed: u64, thorough: bool) {
+    let mut stream = 0u64;
+    let mut next = |s: &mut u64| { *s += 1; rng_for(seed, *s) };
+    let big: u64 = 1 << 63;
+    // corpus: the two histories of the repaired defect
+    {
+        // (i) shipped root predates a timestamp-key rotation; cycle 2 replays older timestamp/snapshot
+        let mut r = next(&mut stream);
+        let e0 = base_set();
+        let e1 = RoleSet { ts: (vec![0], 1), ..e0.clone() };
+        let steps = [Step { epoch: 1, shipped: 0, versions: [5, 5, 1, 1], fail: None }, Step { epoch: 1, shipped: 0, versions: [3, 3, 1, 1], fail: None }];
+        history(ctx, &mut r, &[e0.clone(), e1], &["ts-disjoint"], &steps, false, "corpus-old-shipped-root").await;
+        // (ii) newest root shipped, old key kept, stored versions inflated
+        let mut r = next(&mut stream);
+        let e1 = RoleSet { ts: (vec![8, 0], 1), ..e0.clone() };
+        let steps = [Step { epoch: 0, shipped: 0, versions: [big, big, 1, 1], fail: None }, Step { epoch: 1, shipped: 1, versions: [2, 2, 1, 1], fail: None }];
+        history(ctx, &mut r, &[e0, e1], &["ts-overlap"], &steps, true, "corpus-overlap-lockout").await;
+    }
+    // all two-cycle histories over a version grid, without root changes
+    let grid: Vec<u64> = if thorough { vec![1, 2, 3] } else { vec![1, 2] };
+    let mut quads = Vec::new();
+    for a in &grid { for b in &grid { for c in &grid { for d in [0u64, 1, 2, 3] {
+        if d == 0 || grid.contains(&d) { quads.push([*a, *b, *c, d]); }
+    } } } }
+    let take = if thorough { 1 } else { 3 }; // quick: every third pair
+    let mut idx = 0u64;
+    for q1 in &quads {
+        if q1[3] != q1[2] { continue; } // cycle 1 must succeed to store anything
+        for q2 in &quads {
+            idx += 1;
+            if idx % take != 0 { continue; }
+            let mut r = next(&mut stream);
+            let cs = r.chance(1, 2);
+            let steps = [Step { epoch: 0, shipped: 0, versions: *q1, fail: None }, Step { epoch: 0, shipped: 0, versions: *q2, fail: None }];
+            history(ctx, &mut r, &[base_set()], &[], &steps, cs, "grid2").await;
+        }
+    }
+    // random histories with root changes
+    let n = if thorough { 20_000 } else { 1_200 };
+    for _ in 0..n {
+        let mut r = next(&mut stream);
+        let cs = r.chance(1, 2);
+        let ncyc = r.range(2, 4) as usize;
+        let nep = r.range(1, 4) as usize;
+        let mut epochs = vec![base_set()];
+        let mut kinds: Vec<&str> = Vec::new();
+        for _ in 1..nep {
+            let (e, k) = mutate(&mut r, epochs.last().unwrap(), &epochs);
+            epochs.push(e);
+            kinds.push(k);
+        }
+        let mut steps = Vec::new();
+        let mut epoch = if r.chance(1, 2) { 0 } else { r.below(nep as u64) as usize };
+        let inflate = r.chance(1, 6);
+        for i in 0..ncyc {
+            if i > 0 && r.chance(1, 2) { epoch = (epoch + r.range(0, 2) as usize).min(nep - 1); }
+            let shipped = match r.below(3) { 0 => 0, 1 => r.below(epoch as u64 + 1) as usize, _ => epoch };
+            let pick = |r: &mut Rng| r.range(1, 3);
+            let t = pick(&mut r);
+            let mut v = [pick(&mut r), pick(&mut r), t, t];
+            if r.chance(1, 10) { v[3] = if r.chance(1, 3) { 0 } else { pick(&mut r) }; }
+            if inflate && i == 0 { v[0] = big; v[1] = big - r.below(2); }
+            let fail = if i > 0 && r.chance(1, 8) { Some(*r.pick(&["ts-missing", "ts-garbage", "snapshot-openerr", "expired", "unsafe"])) } else { None };
+            steps.push(Step { epoch, shipped, versions: v, fail });
+        }
+        history(ctx, &mut r, &epochs, &kinds, &steps, cs, "random").await;
+    }
+}
